@@ -174,7 +174,8 @@ func ruleBuilderVisitsAll(w *core.World, r *core.Report, b *ssa.Function) {
 			}
 			return true
 		})
-		okKeys := ka != nil && forwardRangeIndex(ka.Index) && ka.X == extractOf(res.Value(), 0)
+		okKeys := ka != nil && forwardRangeIndex(ka.Index) && (ka.X == extractOf(res.Value(), 0) ||
+			core.DependsOn(ka.X, func(v ssa.Value) bool { return v == extractOf(res.Value(), 0) }))
 		r.Check(okKeys, "buildBisyncReplayUnit/every-key", s.Pos(), "every key returned by the resolver must be hashed with the module's slot function (forward range over all keys)")
 	}
 	if n == 0 {
@@ -183,7 +184,9 @@ func ruleBuilderVisitsAll(w *core.World, r *core.Report, b *ssa.Function) {
 	// failure edges: on every path, (resolver err != nil) | (!ok) | (len(keys)==0) | (keySlot != slot in strict mode) => returns (nil, non-nil)
 	isErr := func(v ssa.Value) bool { return core.Unwrap(v) == extractOf(res.Value(), 2) }
 	isOK := func(v ssa.Value) bool { return core.Unwrap(v) == extractOf(res.Value(), 1) }
-	isLenKeys := lenOf(func(v ssa.Value) bool { return v == extractOf(res.Value(), 0) })
+	isLenKeys := lenOf(func(v ssa.Value) bool {
+		return v == extractOf(res.Value(), 0) || core.DependsOn(v, func(x ssa.Value) bool { return x == extractOf(res.Value(), 0) })
+	})
 	isKeySlot := isResultOf("pkg/redis.KeyToSlot", -1)
 	bad := ""
 	var badPos token.Pos
